@@ -67,6 +67,7 @@ func main() {
 	srcmapF := flag.String("srcmap", "", "json map original path -> alternative source (mutants)")
 	pkgsF := flag.String("pkgs", ".,fasthttputil,stackless,prefork", "packages (relative dirs) to rewrite")
 	paramsF := flag.String("params", "", "comma separated pkgdir:ConstName scale constants to parameterise")
+	substF := flag.String("subst", "", "json file: per package dir, selector substitutions (seams) {\"dir\": {\"imports\": {alias: path}, \"selectors\": {\"pkg.Name\": \"alias.Name\"}}}")
 	flag.Parse()
 	if *out == "" {
 		fatalf("-out required")
@@ -93,6 +94,16 @@ func main() {
 			p = p[:i]
 		}
 		params[p] = true
+	}
+	subst := map[string]*substSpec{}
+	if *substF != "" {
+		b, err := os.ReadFile(*substF)
+		if err != nil {
+			fatalf("%v", err)
+		}
+		if err := json.Unmarshal(b, &subst); err != nil {
+			fatalf("subst: %v", err)
+		}
 	}
 	rels := strings.Split(*pkgsF, ",")
 	var args []string
@@ -164,7 +175,7 @@ func main() {
 			fatalf("type-check of %s failed: %v", tp.ImportPath, err)
 		}
 		for i, af := range files {
-			rw := &rewriter{fset: fset, info: info, file: af, pkgRel: r, params: params, paramTypes: paramTypes}
+			rw := &rewriter{fset: fset, info: info, file: af, pkgRel: r, params: params, paramTypes: paramTypes, subst: subst[r]}
 			rw.rewriteFile()
 			var buf bytes.Buffer
 			if err := format.Node(&buf, fset, af); err != nil {
@@ -185,7 +196,16 @@ func main() {
 	}
 }
 
+// substSpec lists the seams of one package: selector expressions on imported packages that are redirected to a
+// harness-controlled stand-in (dialers, child processes, ...).
+type substSpec struct {
+	Imports   map[string]string `json:"imports"`
+	Selectors map[string]string `json:"selectors"`
+}
+
 type rewriter struct {
+	subst      *substSpec
+	usedSeams  map[string]bool
 	fset       *token.FileSet
 	info       *types.Info
 	file       *ast.File
@@ -260,6 +280,18 @@ func (rw *rewriter) rewriteFile() {
 		decls = append(decls, d)
 	}
 	f.Decls = decls
+	if len(rw.usedSeams) > 0 {
+		for alias := range rw.usedSeams {
+			path, ok := rw.subst.Imports[alias]
+			if !ok {
+				fatalf("subst: no import path for alias %s", alias)
+			}
+			spec := &ast.ImportSpec{Name: ast.NewIdent(alias), Path: &ast.BasicLit{Kind: token.STRING, Value: strconv.Quote(path)}}
+			f.Decls = append([]ast.Decl{&ast.GenDecl{Tok: token.IMPORT, Specs: []ast.Spec{spec}}}, f.Decls...)
+			f.Imports = append(f.Imports, spec)
+		}
+		rw.dropUnusedImports()
+	}
 	if rw.useMcrt {
 		spec := &ast.ImportSpec{Name: ast.NewIdent("_mcrt"), Path: &ast.BasicLit{Kind: token.STRING, Value: strconv.Quote(mcrtPath)}}
 		gd := &ast.GenDecl{Tok: token.IMPORT, Specs: []ast.Spec{spec}}
@@ -342,6 +374,21 @@ func (rw *rewriter) apply(n ast.Node) ast.Node {
 	case *ast.CallExpr:
 		if id, ok := v.Fun.(*ast.Ident); ok && id.Name == "close" && len(v.Args) == 1 {
 			return rw.mcrt("Close", v.Args[0])
+		}
+	case *ast.SelectorExpr:
+		if rw.subst != nil {
+			if id, ok := v.X.(*ast.Ident); ok {
+				if to, ok := rw.subst.Selectors[id.Name+"."+v.Sel.Name]; ok {
+					if tv, known := rw.info.Types[v.X]; !known || !tv.IsValue() { // X is a package name, not a variable
+						parts := strings.SplitN(to, ".", 2)
+						if rw.usedSeams == nil {
+							rw.usedSeams = map[string]bool{}
+						}
+						rw.usedSeams[parts[0]] = true
+						return &ast.SelectorExpr{X: ast.NewIdent(parts[0]), Sel: ast.NewIdent(parts[1])}
+					}
+				}
+			}
 		}
 	case *ast.BasicLit:
 		if v.Kind == token.INT && rw.params[rw.pkgRel+":lit:"+v.Value] {
@@ -556,5 +603,39 @@ func unparen(e ast.Expr) ast.Expr {
 			return e
 		}
 		e = p.X
+	}
+}
+
+// dropUnusedImports removes imports that the seam substitution left without a reference.
+func (rw *rewriter) dropUnusedImports() {
+	used := map[string]bool{}
+	ast.Inspect(rw.file, func(n ast.Node) bool {
+		if se, ok := n.(*ast.SelectorExpr); ok {
+			if id, ok := se.X.(*ast.Ident); ok {
+				used[id.Name] = true
+			}
+		}
+		return true
+	})
+	for _, d := range rw.file.Decls {
+		gd, ok := d.(*ast.GenDecl)
+		if !ok || gd.Tok != token.IMPORT {
+			continue
+		}
+		var keep []ast.Spec
+		for _, sp := range gd.Specs {
+			is := sp.(*ast.ImportSpec)
+			name := ""
+			if is.Name != nil {
+				name = is.Name.Name
+			} else {
+				p, _ := strconv.Unquote(is.Path.Value)
+				name = p[strings.LastIndex(p, "/")+1:]
+			}
+			if name == "_" || name == "." || used[name] {
+				keep = append(keep, sp)
+			}
+		}
+		gd.Specs = keep
 	}
 }
